@@ -56,7 +56,8 @@ class C14(Prop):
                         'server': (not own) and not any(e[0] == 'X' for e in evs) and rng.random() < 0.35})
         for _ in range(n // 5):
             out.append({'kind': 'announce', 'role': rng.choice(['server', 'server', 'client']), 'leases': [[rng.choice([0, 1, 7, 2 ** 31 - 1]), rng.choice([1000, 2_500_000, 500_000, 1_500_000, 60_000_000, 999_000, 86_399_999_000, 86_400_000_000, 86_405_000_000, 172_800_000_000, 266_400_017_000,
-                                                                                                   2_147_483_647_000, rng.randint(1, 2_147_483_647) * 1000])] for _ in range(rng.randint(1, 3))]})
+                                                                                                   2_147_483_647_000, rng.randint(1, 2_147_483_647) * 1000])] for _ in range(rng.randint(1, 3))],
+                        'delays': rng.choice([None, None, [0], [200, 400], [3000], [1, 700]])})
         return out
 
     def run_impl(self, case):
@@ -171,10 +172,17 @@ class C14(Prop):
             await loop.settle()
             t.deliver(engine.build_frame({'ty': 'SETUP', 'sid': 0, 'complete': True}).serialize())
             await loop.settle()
-        for n, us in case['leases']:
+        # a publisher may prepare its leases ahead of time and publish them later (or publish one object again): what is announced is the
+        # lease as published, however old the object is
+        prepared = [DefinedLease(maximum_request_count=n, maximum_lease_time=timedelta(microseconds=us)) for n, us in case['leases']] if case.get('delays') else None
+        for i, (n, us) in enumerate(case['leases']):
             if not hasattr(pub, 's'):
                 break         # the endpoint never subscribed to its lease publisher: nothing can be announced
-            pub.s.on_next(DefinedLease(maximum_request_count=n, maximum_lease_time=timedelta(microseconds=us)))
+            if prepared:
+                await loop.advance(case['delays'][i % len(case['delays'])])
+                pub.s.on_next(prepared[i])
+            else:
+                pub.s.on_next(DefinedLease(maximum_request_count=n, maximum_lease_time=timedelta(microseconds=us)))
             await loop.settle()
         got = [[e[2].number_of_requests, e[2].time_to_live] for e in t.sent if isinstance(e[2], F.LeaseFrame)]
         await server.close()
